@@ -44,15 +44,15 @@ def doMerge (ts : List String) : Option String := do
       | "bub" => some Algo.bubble
       | _ => none
     let copy ← match elem with
-      | "e8" => some true
-      | "e40" => some false
+      | "e8" | "d8" => some true
+      | "e40" | "d40" => some false
       | _ => none
     let keys ← seqToks.mapM intCsv
     let total := (keys.map List.length).sum
     if len > total then none
     let senKey : Option Int ← (if sen = "-" then some none else sen.toInt?.map some)
     if sentinels && senKey.isNone then none
-    let guardOf : Option Elem := if sentinels then senKey.map fun k => { key := k, seq := 65535, pos := 65535 } else none
+    let guardOf : Option Elem := if sentinels then senKey.map fun k => { key := k, seq := 262143, pos := 16383 } else none
     let seqs : List (Seq Elem) := keys.zipIdx.map fun (q, i) =>
       { xs := q.zipIdx.map fun (k, p) => ({ key := k, seq := i, pos := p } : Elem), guard := guardOf }
     if seqs.any (fun s => !sortedBy lt s.xs) then none
